@@ -18,7 +18,7 @@ CHECKS = {
     ),
     "C02": (
         "reference-model monitor: C-like reference interpreter (MSL dialect) over the Metal syntax tree from the exporter hook vs. irexec on the source IR; structural monitor of global threading",
-        "Every function of thousands of generated programs (no double) and of directed call-graph / aliasing programs is executed on the "
+        "Every function of thousands of generated programs (no double; namespaces with globals, nested namespaces, computed subscripts) and of directed call-graph / aliasing / scoping programs is executed on the "
         "source IR and on the Metal syntax tree the generator hands to the formatter (references, metal:: builtins, trampolines, threaded "
         "globals bound to harness storage): results, out/inout values and static/groupshared storage must be bit identical; the extra "
         "parameters of every emitted function must equal the globals it transitively needs (independent IR walk), by reference.",
@@ -29,8 +29,9 @@ CHECKS = {
         "invariant monitor on returned state: independent re-typing of every accepted IR module + single-fault injection table",
         "Every module the type checker accepts (unit-test snippets, corpus, thousands of generated programs) is re-typed expression by "
         "expression by an independent checker written from the property, and the IR's own typing function is called on every expression "
-        "under panic capture; a complete table of ~2450 programs carrying exactly one violation of the five named classes (each with an "
-        "accepted twin) must be rejected. Exploration; the negative table is enumerated completely in both tiers.",
+        "under panic capture; so is whatever the type checker accepts of a conversion table (33 numeric types squared x in/out/inout argument, "
+        "return, initialiser, assignment); a complete table of ~2900 programs carrying exactly one violation of the five named classes (each "
+        "with an accepted twin; repeated swizzles also non-adjacent) must be rejected. Exploration; the negative table is enumerated completely in both tiers.",
         "Rules are the property's (with the documented untyped-literal relaxation); an ill-typed program outside the five classes is not detected.",
         "DESIGN.md §5 C03",
     ),
@@ -45,7 +46,8 @@ CHECKS = {
     "C08": (
         "process-level runtime monitor: supervised child processes, panic/abort/step-budget classification over hostile generated inputs",
         "Every compile() execution of a large hostile workload (byte/token/structured soups, mutated unit-test snippets and corpus files, "
-        "unsupported constructs, directed stress families) is observed in a child process built with overflow checks and debug assertions: "
+        "unsupported constructs, directed stress families, grammar-generated programs valid and with exactly one structural or token "
+        "mutation, unfinished constructs and multi-byte characters at end of file) is observed in a child process built with overflow checks and debug assertions: "
         "outcome must be Ok or a non-empty rendered diagnostic within a polynomial logical-step budget. Held = no unlisted panic site, abort, "
         "budget overrun or watchdog on the executions observed; it is exploration, not proof.",
         "Trusts: tick sites cover all input-dependent loops (others only by the wall-clock watchdog); instrumented build behaves like release; "
@@ -95,8 +97,8 @@ CHECKS["C05"] = (
     "invariant monitor relating returned metadata to the emitted source: independent scan of declarations/annotations and of call-graph reachability",
     "For thousands of generated resource/pipeline programs (plus corpus and unit-test snippets) x 4 targets x {no pipeline, all, each named "
     "pipeline}, every metadata binding is matched against the register / vk::binding / [[id(n)]] annotation, declared type, array length "
-    "and bindless attribute of the declaration of that name in the emitted tree and text; stages must name a defined function with the "
-    "reported thread-group size; is_used is compared with an independent reachability walk.",
+    "and bindless attribute of the declaration of that name in the emitted tree and text; stages (written in any order in the pipeline) "
+    "must name the function the pipeline names for that stage, defined in the output with the reported thread-group size; is_used is compared with an independent reachability walk.",
     "Reachability is syntactic (certain / possible sets; undecided bindings are skipped). HLSL reports every binding used, so only 'reachable => used' is tested there.",
     "DESIGN.md §5 C05",
 )
@@ -141,7 +143,8 @@ CHECKS["C13"] = (
 )
 CHECKS["C14"] = (
     "differential monitor: trivia insertion at token boundaries (own lexer) and line-shift tracking of diagnostics",
-    "Thousands of base programs (unit-test snippets, tests/basic, generated macro/include programs) x trivia variants must give the same "
+    "Thousands of base programs (unit-test snippets, tests/basic, generated macro/include programs) x trivia variants (also comments and "
+    "splices in front of a directive's #, comment texts beginning with / or *) must give the same "
     "verdict and payload; programs with one injected error (28 kinds, also inside included files) x k in 0..50 inserted lines must report "
     "the same message, file and column with the line moved by exactly k.",
     "Token boundaries come from the harness's own conservative lexer (unsure runs are merged, so some boundaries are never exercised).",
@@ -159,15 +162,16 @@ CHECKS["C17"] = (
 CHECKS["C15"] = (
     "differential monitor over injective renamings + invariant monitors on the emitted declarations (independent reserved-name lists, scope clashes) + execution of the renamed program",
     "Generated programs with identifier placeholders are rendered under a neutral and a second injective naming (fresh, or adversarial: "
-    "reserved words / built-in names of both targets, <name>_N forms, the exporters' own generated names): for fresh names the HLSL and "
+    "reserved words / built-in names of both targets, <name>_N forms, the exporters' own generated names, coordinated pairs of a renamed "
+    "global and locals spelled like its generated names, names shared between namespaces, locals and globals): for fresh names the HLSL and "
     "Metal outputs must be identical up to the renaming; no emitted declaration may carry a reserved name (oracle's own lists), no two "
     "entities of a scope may share a name, fresh unique names must be kept verbatim, and the renamed program must still compute the same (C01/C02 oracles).",
-    "Reserved lists were written for the oracle from the language references. Seven recorded findings (members / enumerators / namespaces are never protected; one clash) are tolerated by mechanism-level signatures.",
+    "Reserved lists were written for the oracle from the language references. Recorded findings (members / enumerators are never protected; a generated name clashing with an enumerator; Metal passes mutable globals as parameters named by their leaf name) are tolerated by mechanism-level signatures; executions of Metal output are skipped where that last finding applies.",
     "DESIGN.md §5 C15",
 )
 CHECKS["C18"] = (
     "differential monitor across the four target configurations (front-end diagnostics, DX/VK verdicts, token-level source comparison after stripping binding annotations, reported stages/state/binding sets)",
-    "~25k generated programs (a quarter broken on purpose) plus corpus and unit-test snippets that do not mention RSSL_TARGET_* are compiled "
+    "~25k generated programs (a quarter broken on purpose; resources also declared through typedefs of object and array types) plus corpus and unit-test snippets that do not mention RSSL_TARGET_* are compiled "
     "for all four configurations: a front-end rejection must be the identical diagnostic everywhere, DirectX and Vulkan succeed or fail "
     "together and differ only in binding/attribute annotations and buffer-address lowering, and stages, thread-group sizes, pipeline state "
     "and the set of (binding name, kind, count) agree.",
